@@ -22,7 +22,7 @@ pub type RSQVector512 = RSQVector<RSSupportPlain<512>>;
 
 /// The generic `S` is the data structure used to provide rank/select
 /// support at the level of blocks.
-#[derive(Default, Clone, PartialEq, Debug, Serialize, Deserialize)]
+#[derive(Clone, PartialEq, Debug, Serialize, Deserialize)]
 pub struct RSQVector<S> {
     qv: QVector,
     rs_support: S,
@@ -45,6 +45,13 @@ impl<S> RSQVector<S> {
     /// ```
     pub fn iter(&self) -> QVectorIterator<&QVector> {
         self.qv.iter()
+    }
+}
+
+impl<S: RSSupport> Default for RSQVector<S> {
+    /// The empty vector, with the (sentinel) counters every query relies on.
+    fn default() -> Self {
+        Self::from(QVector::default())
     }
 }
 
